@@ -143,6 +143,20 @@ func init() {
 					}
 					w.Each(len(items), func(i int) { w.Item(items[i][0], items[i][1]) })
 				}, Eval: evalC09},
+			{Name: "html-tag-families-2", Space: "openers `<a `, `</a `, `</a x=`, `<a x=` x units over 33 HTML symbols ^2 x closing '>' (attribute runs inside a start / end tag that is closed only at the very end)", Share: 1,
+				Run: func(w *fw.W) {
+					units := alpha.Units(c09HTMLSyms, 2)
+					var items [][2]string
+					for _, u := range units {
+						if len(u) < 2 {
+							continue
+						}
+						for _, o := range []string{"<a ", "</a ", "</a x=", "<a x="} {
+							items = append(items, [2]string{u, "html|" + o + "\x01>"})
+						}
+					}
+					w.Each(len(items), func(i int) { w.Item(items[i][0], items[i][1]) })
+				}, Eval: evalC09},
 			{Name: "sql-families-with-tail", Space: "10 openers x units over 47 SQL symbols ^<=1 (quick) / <=2 (thorough) x 5 tails", Share: 1,
 				Run: func(w *fw.W) {
 					units := alpha.Units(c09SQLSyms, w.Pick(1, 2))
